@@ -231,7 +231,7 @@ func (t *T0x0200AdditionExtension0x65) Parse(id uint8, content []byte) (Addition
 }
 
 func (t *T0x0200AdditionExtension0x66) Parse(id uint8, content []byte) (AdditionContent, bool) {
-	if id == 0x66 && len(content) >= 40 {
+	if id == 0x66 && len(content) > 40 {
 		t.AlarmID = binary.BigEndian.Uint32(content[0:4])
 		t.FlagStatus = content[4]
 		t.T0x0200ExtensionSBBase.parse(content[5:40])
